@@ -335,7 +335,7 @@ func c13L3(r *Run, rep *core.Report) {
 							case "CAS":
 								s.Owner = 0
 							case "Store", "Swap", "Add":
-								if k, ok := core.ConstInt(c.Common().Args[1]); ok && k == 0 && op == "Store" {
+								if k, ok := core.ConstInt(core.AtomicLastArg(c)); ok && k == 0 && op == "Store" {
 									if s.Owner != 1 {
 										ctx.Report(in, "clear-by-nonowner", "resize flag cleared on a path where the CAS was not won")
 									}
@@ -462,6 +462,15 @@ func c13L3(r *Run, rep *core.Report) {
 		inl := helperInline(r)
 		for _, g := range r.P.Funcs {
 			if g == f {
+				continue
+			}
+			otherOwner := false
+			for _, m2 := range r.M.Maps {
+				if g == m2.Resize && m2.StateOwner == mm.StateOwner {
+					otherOwner = true // bookkeeping shared by both map types: the other map's resize owner (judged as such itself)
+				}
+			}
+			if otherOwner {
 				continue
 			}
 			if inl(g, nil) {
